@@ -137,6 +137,47 @@ func bodyHash(fset *token.FileSet, fd *ast.FuncDecl) string {
 	return hex.EncodeToString(sum[:6])
 }
 
+// bodyShape fingerprints the structure of a body with every identifier blanked: it survives a
+// consistent renaming of the fields, constants and variables the body mentions. Prefixed "~".
+func bodyShape(fd *ast.FuncDecl) string {
+	if fd.Body == nil {
+		return ""
+	}
+	var b strings.Builder
+	n := 0
+	ast.Inspect(fd.Body, func(x ast.Node) bool {
+		if x == nil {
+			b.WriteString(")")
+			return false
+		}
+		n++
+		switch v := x.(type) {
+		case *ast.Ident:
+			b.WriteString("(i")
+		case *ast.BasicLit:
+			b.WriteString("(" + v.Value)
+		case *ast.BinaryExpr:
+			b.WriteString("(" + v.Op.String())
+		case *ast.UnaryExpr:
+			b.WriteString("(u" + v.Op.String())
+		case *ast.AssignStmt:
+			b.WriteString("(=" + v.Tok.String())
+		case *ast.IncDecStmt:
+			b.WriteString("(" + v.Tok.String())
+		case *ast.BranchStmt:
+			b.WriteString("(" + v.Tok.String())
+		default:
+			b.WriteString("(" + strings.TrimPrefix(fmt.Sprintf("%T", x), "*ast."))
+		}
+		return true
+	})
+	if n < 25 {
+		return "" // too small to be distinctive
+	}
+	sum := sha1.Sum([]byte(b.String()))
+	return "~" + hex.EncodeToString(sum[:6])
+}
+
 // listFuncs parses the module and returns key -> body fingerprint of every declared function.
 func listFuncs(dir string, overlay map[string][]byte) map[string]string {
 	fset := token.NewFileSet()
@@ -152,7 +193,7 @@ func listFuncs(dir string, overlay map[string][]byte) map[string]string {
 		}
 		for _, d := range f.Decls {
 			if fd, ok := d.(*ast.FuncDecl); ok {
-				out[funcKey(dir, p, fd)] = bodyHash(fset, fd)
+				out[funcKey(dir, p, fd)] = bodyHash(fset, fd) + "|" + bodyShape(fd)
 			}
 		}
 	}
@@ -173,19 +214,64 @@ func listFuncKeys(dir string, overlay map[string][]byte) []string {
 // body lives on, unchanged, under another name or receiver (rename / move / method <-> function).
 // old key -> new key.
 func movedFuncs(cur map[string]string) map[string]string {
-	byHash := map[string][]string{}
+	split := func(h string) (string, string) {
+		if i := strings.IndexByte(h, '|'); i >= 0 {
+			return h[:i], h[i+1:]
+		}
+		return h, ""
+	}
+	recvOf := func(k string) string {
+		// "rel:Recv.Name"
+		k = k[strings.IndexByte(k, ':')+1:]
+		return k[:strings.IndexByte(k, '.')]
+	}
+	byExact, byShape := map[string][]string{}, map[string][]string{}
 	for k, h := range cur {
-		if _, base := baselineFuncs[k]; !base && h != "" {
-			byHash[h] = append(byHash[h], k)
+		if _, base := baselineFuncs[k]; base {
+			continue
+		}
+		ex, sh := split(h)
+		if ex != "" {
+			byExact[ex] = append(byExact[ex], k)
+		}
+		if sh != "" {
+			byShape[sh] = append(byShape[sh], k)
 		}
 	}
 	out := map[string]string{}
-	for k, h := range baselineFuncs {
-		if _, still := cur[k]; still || h == "" {
+	taken := map[string]bool{}
+	var missing []string
+	for k := range baselineFuncs {
+		if _, still := cur[k]; !still {
+			missing = append(missing, k)
+		}
+	}
+	sort.Strings(missing)
+	for _, k := range missing {
+		ex, _ := split(baselineFuncs[k])
+		if c := byExact[ex]; ex != "" && len(c) == 1 {
+			out[k] = c[0]
+			taken[c[0]] = true
+		}
+	}
+	// same structure with renamed identifiers: only among functions with the same receiver type
+	for _, k := range missing {
+		if _, done := out[k]; done {
 			continue
 		}
-		if c := byHash[h]; len(c) == 1 {
-			out[k] = c[0]
+		_, sh := split(baselineFuncs[k])
+		if sh == "" {
+			continue
+		}
+		var cands []string
+		for _, c := range byShape[sh] {
+			if !taken[c] && recvOf(c) == recvOf(k) {
+				cands = append(cands, c)
+			}
+		}
+		if len(cands) == 1 {
+			out[k] = cands[0]
+			taken[cands[0]] = true
 		}
 	}
 	return out
